@@ -459,6 +459,10 @@ def _(p, i, r):
     if not js or l.kind != "fhead":
         return None
     k = r.choice(js)
+    t = k - 1
+    while t > 0 and (l.segs[t][1].startswith("ws") or l.segs[t][1] == "op:ptr"):
+        t -= 1
+    l.meta["site"] = {"type_cls": l.segs[t][1], "pointer": l.segs[k - 1][1] == "op:ptr"}
     # drop the name (and the space before it when no asterisk is stuck to it)
     if l.segs[k - 1] == SP:
         del l.segs[k - 1:k + 1]
@@ -612,33 +616,48 @@ def _(p, i, r):
     js = _bin_sites(l)
     if not js:
         return None
+    # gluing + or - to a numeric constant would change the C tokens themselves (pp-number: 1e-, 0x6e-)
+    js = [j for j in js if not (l.segs[j][0] in ("+", "-") and l.segs[j - 2][1].startswith("const"))]
+    if not js:
+        return None
     j = r.choice(js)
     off = l.text()[:_offset(l, j)].count("\n")
     del l.segs[j - 1]
-    l.meta["site"] = {"op": l.segs[j - 1][0], "prev_cls": l.segs[j - 2][1], "next_cls": l.segs[j + 1][1] if j + 1 < len(l.segs) else None}
+    pv = l.segs[j - 2]
+    l.meta["site"] = {"op": l.segs[j - 1][0], "prev_cls": pv[1], "prev": pv[0] if pv[1].startswith("punct") else pv[1],
+                      "next_cls": l.segs[j + 1][1] if j + 1 < len(l.segs) else None}
     return i, off
 
 
-@op("V45", "no_space_after_op", "SPC_AFTER_OPERATOR", ("stmt", "ctrl"))
+@op("V45", "no_space_after_op", ("SPC_AFTER_OPERATOR", "SPC_BFR_PAR", "SPC_BFR_OPERATOR"), ("stmt", "ctrl"))
 def _(p, i, r):
     l = p.lines[i]
-    js = _bin_sites(l)
+    js = [j for j in _bin_sites(l) if j + 2 < len(l.segs) and not _merges(l.segs[j][0], l.segs[j + 2][0])]
     if not js:
         return None
     j = r.choice(js)
     off = l.text()[:_offset(l, j)].count("\n")
     nxt = l.segs[j + 2] if j + 2 < len(l.segs) else ("", "edge")
+    pv = l.segs[j - 2]
     l.meta["site"] = {"op": l.segs[j][0], "next": nxt[0] if not nxt[1].startswith(("id", "const")) else nxt[1],
-                      "next_cls": nxt[1], "prev_cls": l.segs[j - 2][1]}
+                      "next_cls": nxt[1], "prev_cls": pv[1], "prev": pv[0] if pv[1].startswith("punct") else pv[1]}
     del l.segs[j + 1]
     return i, off
+
+
+def _merges(op, nxt):
+    """gluing `nxt` to `op` would form another C token (++, --, &&, ->, <<, ==, /*, //)"""
+    if not nxt:
+        return True
+    a, b = op[-1], nxt[0]
+    return (a == b and a in "+-&|<>=/") or (a == "/" and b == "*") or (a == "-" and b == ">") or (b == "=" )
 
 
 def _comma_sites(l):
     return [j for j in range(len(l.segs) - 1) if l.segs[j][1] == "op:comma" and l.segs[j + 1] == SP]
 
 
-@op("V46", "no_space_after_comma", "SPC_AFTER_OPERATOR", ("stmt", "ctrl", "fhead", "proto"), ("c", "h"))
+@op("V46", "no_space_after_comma", ("SPC_AFTER_OPERATOR", "SPC_BFR_PAR", "SPC_BFR_OPERATOR"), ("stmt", "ctrl", "fhead", "proto"), ("c", "h"))
 def _(p, i, r):
     l = p.lines[i]
     js = _comma_sites(l)
@@ -676,7 +695,8 @@ def _(p, i, r):
     j = r.choice(js)
     off = l.text()[:_offset(l, j)].count("\n")
     nxt = l.segs[j + 1]
-    l.meta["site"] = {"next": nxt[0] if not nxt[1].startswith(("id", "const")) else nxt[1], "next_cls": nxt[1]}
+    l.meta["site"] = {"next": nxt[0] if not nxt[1].startswith(("id", "const")) else nxt[1], "next_cls": nxt[1],
+                      "at_stmt_start": j == 1}
     l.segs.insert(j + 1, (" ", "ws:bad"))
     if not _fits(l):
         return None
